@@ -268,7 +268,11 @@ where
             // check for termination due to slow progress and update strategy
             if isdone{
                     match self.strategy_checkpoint_insufficient_progress(scaling){
-                        StrategyCheckpoint::NoUpdate | StrategyCheckpoint::Fail => {break}
+                        StrategyCheckpoint::NoUpdate => {break}
+                        // a Fail here means the last iterate was discarded and the previous
+                        // one restored: flag that no final step was taken, so that a last
+                        // status line describing the restored iterate is printed below
+                        StrategyCheckpoint::Fail => {α = T::zero(); break}
                         StrategyCheckpoint::Update(s) => {scaling = s; continue}
                     }
             }  // allows continuation if new strategy provided
